@@ -13,8 +13,9 @@ EXPLANATION = (
     "from that constructor with (offending_packet.len(), header_and_extensions_size) and copies exactly the layout's "
     "offending-packet range from a prefix of the model's bytes; the unbounded *Layout::new is not used on encode paths. "
     "(K) checksum: in every SCMP/UDP PayloadEncode::encode_unchecked the write of CHECKSUM_RNG whose value is "
-    "ChecksumDigest::with_pseudoheader(address_header, <protocol of the family>, buf[..len]).checksum() is the last write "
-    "to the buffer on every path. (E) echo: every EchoReply is built from identifier/sequence_number/data of the same request "
+    "ChecksumDigest::with_pseudoheader(address_header, <protocol of the family>, buf[..len]).add_slice(buf[..len]).checksum() "
+    "— the digest covers the pseudo-header AND the message bytes (with_pseudoheader alone folds in only the length of its "
+    "buffer argument) — is the last write to the buffer on every path. (E) echo: every EchoReply is built from identifier/sequence_number/data of the same request "
     "view; the reply goes back to the request's source over the reversed path. (L) no error loops: every construction of an "
     "SCMP reply packet whose message can be an error is dominated by the not-is_error edge of a test on the triggering "
     "packet; ScmpHandler impls return Some only under the EchoRequest discriminant."
@@ -138,6 +139,7 @@ def run(F, R, tier, cfg):
         n_ck += 1
         R.fn(p)
         cks = []
+        uncovered = []
         for c in writes:
             r = b.origin(c.args[1])
             val = tokens(b.origin(c.args[2]))
@@ -146,7 +148,15 @@ def run(F, R, tier, cfg):
                 wp = [n for n in walk(b.origin(c.args[2])) if n[0] == "call" and n[1].endswith("ChecksumDigest::with_pseudoheader")]
                 okp = bool(wp) and "param:3" in tokens(wp[0][2][0]) and any(t.endswith(proto) for t in tokens(wp[0][2][1]) if t.startswith("adt:")) \
                     and "param:2" in tokens(wp[0][2][2])
-                if okp:
+                # the digest must cover the message bytes themselves: with_pseudoheader only folds in the pseudo-header and
+                # the *length* of its buffer argument, so add_slice(message) has to be applied to it (or with_pseudoheader's
+                # own body must add its buffer parameter)
+                adds = [n for n in walk(b.origin(c.args[2])) if n[0] == "call" and n[1].endswith("ChecksumDigest::add_slice")]
+                covered = _wp_adds_data(F) or (bool(adds) and all("param:2" in tokens(n[2][1]) for n in adds)
+                                               and any(strip_sites(_unref14(n[2][1])) == strip_sites(_unref14(wp[0][2][2])) for n in adds if wp))
+                if okp and not covered:
+                    uncovered.append(p)
+                if okp and covered:
                     cks.append(c)
         ok = bool(cks)
         if ok:
@@ -159,8 +169,11 @@ def run(F, R, tier, cfg):
             rets = [x for x in b.live_blocks() if b.term(x)[0] == "ret"]
             mp, _ = T.must_pass(b, rets, ckb)
             ok = not late and mp
-        R.ob("POST-checksum", "%s: checksum(with_pseudoheader(addr, %s, buf[..len])) is the last write" % (short(p), proto), ok, True)
-        if not ok:
+        R.ob("POST-checksum", "%s: checksum(with_pseudoheader(addr, %s, buf[..len]).add_slice(buf[..len])) is the last write" % (short(p), proto), ok, True)
+        if uncovered:
+            R.violation("FLOW-checksum-data", p, "%s computes its checksum over the pseudo-header only: the digest never receives the message bytes "
+                        "(no add_slice(buf[..len]) on it), so the checksum does not verify for any receiver that sums the whole message" % short(p), F.loc(p))
+        elif not ok:
             R.violation("POST-checksum", p, "%s does not finish with the checksum over the %s pseudo-header (or writes the buffer after it)" % (short(p), proto), F.loc(p))
     R.floor("POST-checksum", n_ck, 11, "SCMP/UDP encode_unchecked impls writing fields")
 
@@ -352,6 +365,28 @@ def _is_classified(b, o):
     """the discriminant read is that of a ClassifiedPacketView value (payload of try_classify's Ok)"""
     x = o[1]
     return x[0] in ("field", "downcast", "deref") and "top" not in tokens(x)
+
+
+_wp_memo = {}
+
+
+def _wp_adds_data(F):
+    """does ChecksumDigest::with_pseudoheader itself fold its buffer parameter (param#3) into the digest?"""
+    if "v" not in _wp_memo:
+        b = F.body("sciparse::scion::checksum::ChecksumDigest::with_pseudoheader")
+        v = False
+        if b is not None:
+            for c in b.calls_to(lambda n: n.endswith("ChecksumDigest::add_slice")):
+                if _unref14(b.origin(c.args[1])) == ("param", 3):
+                    v = True
+        _wp_memo["v"] = v
+    return _wp_memo["v"]
+
+
+def _unref14(t):
+    while isinstance(t, tuple) and t and t[0] in ("ref", "deref"):
+        t = t[2] if t[0] == "ref" else t[1]
+    return t
 
 
 def _cut(t, d):
